@@ -196,24 +196,34 @@ def env():
 class Check(PropertyCheck):
     prop = "C22"
     design_ref = "§5 C22"
-    level_text = ("Lean theorems global_refused / private_refused / loopback_and_localmode_exempt / others_not_refused / "
-                  "mapped_scoped_equal_plain / refused_before_processing about the model of Block.client_connected "
-                  "(rsplit('%'), ipaddress.ip_address text parser, ipv4_mapped view, class lookup, option/mode logic) and of "
-                  "handle_client's client.error branch, for ALL peer texts, modes and option pairs; class facts "
-                  "(loopback = 127/8 and ::1, RFC 1918 private, shared space neither, classes exclusive, public samples) "
-                  "are decided on the generated interval tables and lifted to every address by the interval lemma. "
-                  "Tables are regenerated from the running interpreter's ipaddress module on every run; the model is "
-                  "tied to the real Block addon (run through the real AddonManager and ProxyConnectionHandler.handle_client) "
-                  "on all registry boundary addresses x notations x option pairs x modes, random in-block addresses and "
-                  "malformed peer texts.")
-    level_note = ("trusted: Lean kernel; the interval tables assume ipaddress' classification is constant between consecutive "
-                  "boundary points (boundaries = IANA special-purpose registries + every network constant found in the "
-                  "interpreter's ipaddress module; constancy is probed at 4 points per interval at generation time and "
-                  "on random addresses every run). The classification itself is the standard library's (Python 3.12.1 "
-                  "tables, e.g. 192.0.0.8-192.0.0.169 and 64:ff9b:1::/48 count as global there). The text parser model is "
-                  "tied differentially, not proved against a grammar; mapped_scoped_equal_plain is stated for every text "
-                  "that parses to the mapped / plain address. handle_client is modelled only around the client_connected "
-                  "hook (layer execution is C09's subject).")
+    level_text = ("Lean theorems about the model of Block.client_connected (rsplit('%'), a transcription of ipaddress.ip_address, "
+                  "the ipv4_mapped view, class lookup, option/mode logic) and of handle_client's client.error branch, for ALL peer "
+                  "texts, modes and option pairs: global_refused, private_refused, loopback_and_localmode_exempt, "
+                  "others_not_refused, unparseable_not_refused, refused_before_processing, mapped_scoped_equal_plain (+ "
+                  "mapped_equal_plain_addr, scope_irrelevant_addr, zone_stripped). The address classes are no longer an assumed "
+                  "table: table_eq_membership4 / table_eq_membership6 prove that for EVERY address the generated interval table "
+                  "equals membership in the interpreter's own network constants (_loopback_network, _private_networks, "
+                  "_public_network, ::1) under the 3.12.1 definitions of is_loopback / is_private / is_global (prefix-membership "
+                  "lemma inNet_iff + row check by decide +kernel), classOf_eq_membership / refused_iff_membership restate the "
+                  "decision over those networks, effective_not_mapped and parseV4_wf close the side conditions for IPv4. The "
+                  "mode exemption is the isinstance walk over the class hierarchy of mode_specs regenerated on every run "
+                  "(only_local_mode_exempt: among all registered mode classes exactly LocalMode is exempt). Class facts "
+                  "(loopback_exact4/6, rfc1918_private, shared_space_neither, classes_exclusive4/6, public samples) by the "
+                  "interval lemma. Tie: the real Block addon through the real AddonManager and "
+                  "ProxyConnectionHandler.handle_client on all registry boundary addresses x notations x option pairs x every "
+                  "instantiable registered mode, random addresses, malformed texts, 2-6 call histories on one Block instance, "
+                  "and `cls` cases comparing table class AND membership class with ipaddress on boundary/random integers.")
+    level_note = ("trusted: Lean kernel; the network constants are read from the running interpreter and the three class "
+                  "definitions are transcribed by hand from CPython 3.12.1 (fingerprinted; an interpreter with exception "
+                  "lists is refused by the translator) and tied by the `cls` cases; `addr & netmask == network` is modelled "
+                  "as n / 2^k * 2^k == network. The classification itself is the standard library's (e.g. 192.0.0.8-192.0.0.169 "
+                  "and 64:ff9b:1::/48 count as global in 3.12.1). The text parser model is tied differentially, not proved "
+                  "against a grammar; that it yields values below 2^32 is proved for IPv4 (parseV4_wf), for IPv6 the bound "
+                  "2^128 is a hypothesis (wf) of classOf_eq_membership / refused_iff_membership. mapped_scoped_equal_plain is "
+                  "stated for every text that parses to the mapped / plain address. handle_client is modelled only around "
+                  "the client_connected hook (layer execution is C09's subject). Abstentions: the oracle says nothing about "
+                  "peer texts that denote no address (the hook raises, AddonManager logs it, the connection proceeds: "
+                  "unparseable_not_refused) and nothing about `cls` cases (library tie only).")
     technique = "Lean 4 proof (interval lemma over generated tables, case analysis) + table translator + exhaustive boundary correspondence"
     rule = ("every boundary address (first-1, first, last, last+1) of every IANA special-purpose block and of every network "
             "constant in ipaddress, in 6 IPv4 notations (plain, ::ffff: dotted, ::ffff: hex, %zone, mapped+%zone, full "
